@@ -229,7 +229,7 @@ func RunQB(s *simrt.Sim, a *harness.Args, r *harness.Result) {
 	} else {
 		// nothing listens at first (connection refused), the server comes up later
 		s.Spawn("mxlate", nil, func() {
-			time.Sleep(10 * time.Second)
+			simrt.Sleep(10 * time.Second)
 			simrt.Yield("mx:up")
 			l := nw.Listen(mxAddr)
 			mx.Serve(l)
